@@ -45,6 +45,7 @@ func runC05(p *Prog, r *Report, tier string) {
 		r.Undecided("R-VALUE.step", "anchor: aggregateRecords", "pkg/intermediate/aggregate.go", "not found")
 		return
 	}
+	checkAddedElementsFresh(p, r, "R-OWNER.element-fresh")
 	const IN = "GetUnsigned64Value(elem($incomingRecord, AggregationProcess.aggregateElements.StatsElements[i]))"
 	const isDelta = `Contains(AggregationProcess.aggregateElements.StatsElements[i], "Delta")`
 	perNode := func(side string) string {
@@ -1114,4 +1115,107 @@ func controllingConds(p *Prog, s *ssa.BasicBlock) []string {
 	}
 	sort.Strings(out)
 	return out
+}
+
+// checkAddedElementsFresh: the aggregation step updates the per-node and common elements of a stored record IN PLACE
+// (SetUnsigned64Value on the element object). Every element the aggregation process attaches to a record must therefore
+// be an object made for that record: the operand of every Record.AddInfoElement call in pkg/intermediate is, on every
+// path, the result of an element constructor of pkg/entities called there (helpers of the package followed two levels).
+// An element taken from a map, a field or a parameter (a cached zero-valued throughput element shared by all flows)
+// makes one flow's update visible in another flow's record.
+func checkAddedElementsFresh(p *Prog, r *Report, rule string) {
+	n := 0
+	for _, f := range p.RepoFns {
+		if !keyInPkg(fnKey(f), "pkg/intermediate") {
+			continue
+		}
+		eachInstr(f, func(in ssa.Instruction) {
+			c := callOf(in)
+			if c == nil || !c.IsInvoke() || c.Method.Name() != "AddInfoElement" || !strings.HasSuffix(typeName(c.Value.Type()), "entities.Record") || len(c.Args) != 1 {
+				return
+			}
+			n++
+			bad := staleElementOrigin(c.Args[0], 0, map[ssa.Value]bool{})
+			r.Check(bad == "", rule, fmt.Sprintf("%s: element attached to a record #%d", fnKey(f), n), p.instrPos(in),
+				"made by an element constructor on every path", "the element attached to the record is not made for it ("+bad+"): stored records are updated in place, so flows that share the element object see each other's updates and resets", true)
+		})
+	}
+	r.Facts[rule+".sites"] = n
+	if n == 0 {
+		r.Undecided(rule, "anchor: Record.AddInfoElement calls in pkg/intermediate", "pkg/intermediate/aggregate.go", "none found")
+	}
+}
+
+// staleElementOrigin returns "" when v is a fresh element on every path, else a description of the offending origin.
+func staleElementOrigin(v ssa.Value, d int, seen map[ssa.Value]bool) string {
+	v = stripChange(v)
+	if seen[v] {
+		return ""
+	}
+	seen[v] = true
+	if d > 12 {
+		return "origin too deep to follow"
+	}
+	switch x := v.(type) {
+	case *ssa.Phi:
+		for _, e := range x.Edges {
+			if s := staleElementOrigin(e, d+1, seen); s != "" {
+				return s
+			}
+		}
+		return ""
+	case *ssa.Const:
+		return "" // nil on an error path
+	case *ssa.Extract:
+		return staleElementOrigin(x.Tuple, d+1, seen)
+	case *ssa.TypeAssert:
+		return staleElementOrigin(x.X, d+1, seen)
+	case *ssa.Call:
+		name := calleeName(&x.Call)
+		if i := strings.LastIndex(name, "."); i >= 0 && strings.HasPrefix(name, "pkg/entities.") {
+			fn := name[i+1:]
+			if (strings.HasPrefix(fn, "New") && strings.Contains(fn, "InfoElement")) || fn == "DecodeAndCreateInfoElementWithValue" {
+				return ""
+			}
+		}
+		if callee := x.Call.StaticCallee(); callee != nil && keyInPkg(fnKey(callee), "pkg/intermediate") && len(callee.Blocks) > 0 && d < 6 {
+			for _, b := range callee.Blocks {
+				ret, ok := b.Instrs[len(b.Instrs)-1].(*ssa.Return)
+				if !ok {
+					continue
+				}
+				for i := range ret.Results {
+					rv := retResult(ret, i)
+					if rv == nil || !types.Identical(rv.Type(), v.Type()) && !strings.Contains(typeName(rv.Type()), "InfoElement") {
+						continue
+					}
+					if s := staleElementOrigin(rv, d+3, seen); s != "" {
+						return s
+					}
+				}
+			}
+			return ""
+		}
+		return "result of " + name
+	case *ssa.Lookup:
+		return "read from a map"
+	case *ssa.UnOp:
+		if x.Op == token.MUL {
+			if tn, fn, _, ok := fieldOf(x.X); ok {
+				return "read from " + tn + "." + fn
+			}
+			if _, ok := x.X.(*ssa.IndexAddr); ok {
+				return "read from a slice element"
+			}
+			if al, ok := x.X.(*ssa.Alloc); ok {
+				if sv := singleStoreValue(al); sv != nil {
+					return staleElementOrigin(sv, d+1, seen)
+				}
+			}
+			return "loaded from memory"
+		}
+	case *ssa.Parameter:
+		return "a parameter"
+	}
+	return fmt.Sprintf("origin %T", v)
 }
